@@ -146,7 +146,13 @@ INMOD = {
     "c03": [("parser_state::verif_kani::constrain_idxs_complete", "quick", True,
              "constrain_idxs(start, end, len) equals the index normalisation spec norm_idx for every i32 start, every Option<i32> end and every len <= i32::MAX (the contract ASSUMED in the core unit)",
              "none: loop-free harness over the full domain")],
-    "c10": [("position::verif_kani::position_line_col_bounded_3", "quick", False,
+    "c10": [("position::verif_kani::find_line_start_chars3", "quick", False,
+             "find_line_start == ls (the contract ASSUMED in the lines unit) for every string of <= 3 characters over {a, \\n, \\r, é, €} and every boundary offset", "<= 3 characters from a 5-character mixed-width alphabet, unwind 11"),
+            ("position::verif_kani::find_line_end_chars3", "quick", False,
+             "find_line_end == le (ASSUMED in the lines unit), same bound", "<= 3 characters from a 5-character mixed-width alphabet, unwind 11"),
+            ("position::verif_kani::line_col_chars3", "quick", False,
+             "Position::line_col == (1 + newlines, 1 + characters since the last newline), same bound", "<= 3 characters from a 5-character mixed-width alphabet, unwind 11"),
+            ("position::verif_kani::position_line_col_bounded_3", "thorough", False,
              "Position::line_col equals (1 + newlines, 1 + characters since the last newline) - every valid UTF-8 string of <= 3 bytes, every boundary offset", "strings <= 3 bytes, unwind 6"),
             ("position::verif_kani::find_line_start_end_bounded_3", "thorough", False,
              "find_line_start == ls, find_line_end == le, line_of is the bytes between them (the contracts ASSUMED in the lines unit) - strings <= 3 bytes", "strings <= 3 bytes, unwind 6"),
